@@ -93,6 +93,12 @@ pub fn value_tokens(v: &Value) -> String {
     o.join(" ")
 }
 
+pub fn value_tokens_sorted(v: &Value) -> String {
+    let mut o = Vec::new();
+    enc_view_sorted(v.as_view(), &mut o);
+    o.join(" ")
+}
+
 /// Like `enc_view` but object entries sorted by key (canonical form for observations where the
 /// iteration order of a HashMap is not the point).
 pub fn enc_view_sorted(v: &dyn ValueView, out: &mut Vec<String>) {
